@@ -16,6 +16,7 @@ from selftest import mutate
 # property -> [(canary name, file, operator, [substrings that must all occur in the site description], expected rule id)]
 CANARIES = {
     "C01": [
+        ('bundle-member-replaced-by-a-shared-object', 'stix2/properties.py', 'text', ['        if isinstance(parsed_obj, _STIXBase):\n            has_custom = parsed_obj.has_custom', '        if isinstance(parsed_obj, _STIXBase):\n            parsed_obj = dict(parsed_obj)\n            has_custom = False'], 'C01.custom-content-round-trip'),
         ('defaulted-list-kept-on-the-class', 'stix2/base.py', 'text', ['        self._defaulted_optional_properties = defaulted', '        cls._defaulted_optional_properties = defaulted'], 'C01.history-independence'),
         ('index-from-two-sequences', 'stix2/serialization.py', 'text', ['            idx = _find(list(obj), search_key)', '            idx = _find(list(obj._properties), search_key)\n            if idx < 0:\n                idx = _find(list(obj), search_key)'], 'C01.encoder-siblings'),
         ('text-cleaned-before-decoding', 'stix2/parsing.py', 'text', ['    obj = _get_dict(data)', '    obj = _get_dict(data.strip() if isinstance(data, str) else data)'], 'C01.encoder-siblings'),
@@ -82,6 +83,7 @@ CANARIES = {
         ("modified-through-custom-properties-unchecked", "stix2/versioning.py", "text", ["            kwargs.setdefault(\n                \"modified\", kwargs[\"custom_properties\"][\"modified\"],\n            )\n", "            pass\n"], "C05.pipeline"),
     ],
     "C06": [
+        ('fractions-read-as-decimal', 'stix2/utils.py', 'text', ['                return json.loads(data)\n', '                return json.loads(data, parse_float=str)\n'], 'C06.canonical-form'),
         ('custom-members-not-hashed', 'stix2/base.py', 'text', ['            k: _make_json_serializable(v)\n            for k, v in value.items()\n', "            k: _make_json_serializable(v)\n            for k, v in value.items()\n            if not k.startswith('x_')\n"], 'C06.wiring'),
         ('generator-failure-swallowed', 'stix2/v21/base.py', 'text', ['                raise ValueError(\n                    "%s content is nested too deeply" % self.__class__.__name__,\n                ) from None', '                id_ = None'], 'C06.wiring'),
         ("contributing-name-lost", "stix2/v21/observables.py", "drop-list-element", ["'serial_number'"], "C06.table"),
@@ -95,6 +97,7 @@ CANARIES = {
         ("collision-test-case-folded", "stix2/properties.py", "text", ["            if spec_name in spec_dict and spec_dict[spec_name] != hash_v:", "            if spec_name in spec_dict and spec_dict[spec_name].lower() != hash_v.lower():"], "C06.order-free-cleaning"),
     ],
     "C07": [
+        ('language-tags-case-folded', 'stix2/markings/utils.py', 'text', ['        return marking.id\n', '        return marking.id.lower()\n'], 'C07.query-siblings'),
         ('object-level-add-lists-duplicates', 'stix2/markings/object_markings.py', 'text', ["    object_markings = set(obj.get('object_marking_refs', []) + marking)", "    object_markings = obj.get('object_marking_refs', []) + marking"], 'C07.normal-form'),
         ('option-rebound-in-loop', 'stix2/markings/granular_markings.py', 'text', ["                    lng = marking.get('lang')\n", "                    lang = marking.get('lang') if lang else None\n                    lng = lang\n"], 'C07.loops-complete'),
         ('option-key-for-dictionaries-too', 'stix2/versioning.py', 'text', ['    if isinstance(data, stix2.base._STIXBase):\n        if allow_custom is None:', '    if True:\n        if allow_custom is None:'], 'C07.new-version'),
@@ -130,6 +133,7 @@ CANARIES = {
         ("followedby-absorbs-and", "stix2/equivalence/pattern/transform/observation.py", "text", ["                    elif type(child1) is type(child2):", "                    elif isinstance(child1, _CompoundObservationExpression):"], "C09.absorption"),
     ],
     "C10": [
+        ('equality-operator-known-by-its-text', 'stix2/pattern_visitor.py', 'text', ['        operator = children[2 if not_present else 1].symbol.type\n', '        operator = children[2 if not_present else 1].getText()\n', '        negated = not_present != (operator != self.parser_class.EQ)', '        negated = not_present != (operator != "=")'], 'C10.not-aware'),
         ('empty-binary-constant', 'stix2/patterns.py', 'text', ['        if not value:\n            # (Valid base64, for no bytes at all', '        if value is None:\n            # (Valid base64, for no bytes at all'], 'C10.binary-literal-form'),
         ('quoted-step-groups-swapped', 'stix2/patterns.py', 'text', ['return ListObjectPathComponent(name, m.group(2))', 'return ListObjectPathComponent(m.group(2), name)'], 'C10.path-text'),
         ('and-group-dropped', 'stix2/pattern_visitor.py', 'text', ['            return self.instantiate("ParentheticalExpression", children[1])\n        else:', '            return children[1]\n        else:'], 'C10.operator-table'),
@@ -211,6 +215,7 @@ CANARIES = {
         ("escape-entry-lost", "stix2/canonicalization/Canonicalize.py", "drop-dict-entry", ["drop entry '\\t'"], "C16.escapes"),
     ],
     "C17": [
+        ('first-character-of-empty-text', 'stix2/utils.py', 'text', ['    else:\n        try:\n            try:\n                return json.loads(data)', "    else:\n        if isinstance(data, str) and data[0] == '\\ufeff':\n            data = data[1:]\n        try:\n            try:\n                return json.loads(data)"], 'C17.raw-deref'),
         ('decoder-recursion-escapes', 'stix2/utils.py', 'text', ['        except RecursionError:\n            raise ValueError(\n                "Cannot convert JSON text to dictionary: nested too deeply",', '        except ZeroDivisionError:\n            raise ValueError(\n                "Cannot convert JSON text to dictionary: nested too deeply",'], 'C17.recursion-converted'),
         ('family-written-before-the-comparison', 'stix2/datastore/memory.py', 'text', ['        self.all_versions[obj["modified"]] = obj\n        if is_latest:', '        if is_latest:', '        is_latest = (\n', '        self.all_versions[obj["modified"]] = obj\n        is_latest = (\n'], 'C17.commit-last'),
         ('bundle-members-written-one-by-one', 'stix2/datastore/filesystem.py', 'text', ['            parsed_data = parse(stix_data, allow_custom=self.allow_custom, version=version)\n', "            if isinstance(stix_data, dict) and stix_data.get('type') == 'bundle':\n                for member in stix_data.get('objects', []):\n                    self.add(member, version=version, pretty=pretty)\n                return\n            parsed_data = parse(stix_data, allow_custom=self.allow_custom, version=version)\n"], 'C17.commit-last'),
